@@ -436,6 +436,59 @@ def corrupt(src, dst, e, site, pcrel, target, relative):
     return True
 
 
+EXT_LIB_S = """.globl ext_table, ext_other, ext_fn
+.data
+.type ext_table,@object
+.size ext_table,96
+ext_table: .zero 96
+.type ext_other,@object
+.size ext_other,64
+ext_other: .zero 64
+.text
+.type ext_fn,@function
+ext_fn: ret
+.size ext_fn,.-ext_fn
+.section .note.GNU-stack,"",@progbits
+"""
+
+
+def addend_case(ctx, i):
+    """A PIE / shared object whose data holds pointers into objects of ANOTHER shared library: the loader
+    resolves them through symbolic relocations with addends."""
+    case_id = f"ext-{i}"
+    r = rng("C34", ctx.seed, "ext", i)
+    d = ctx.scratch.dir("ext", case_id)
+    kind = r.choice(["pie", "shared"])
+    ptrs = [(r.choice(["ext_table", "ext_other"]), 4 * r.randint(0, 12)) for _ in range(r.randint(2, 6))]
+    src = ".globl _start\n.text\n_start: ret\n.data\n.globl ptab\nptab:\n" + "".join(f"    .quad {sy}+{a}\n" for sy, a in ptrs) + \
+          "    .quad ext_fn\n.section .note.GNU-stack,\"\",@progbits\n"
+    lib_o = os.path.join(d, "ext.o")
+    write(lib_o, open(cc(ctx, EXT_LIB_S, (), "s"), "rb").read())
+    main_o = os.path.join(d, "main.o")
+    write(main_o, open(cc(ctx, src, (), "s"), "rb").read())
+    so = os.path.join(d, "libext.so")
+    if not tools.link("ld", ["-shared", "-soname", "libext.so", lib_o, "-o", so], cwd=d).ok:
+        return ctx.inconclusive("helper library does not link")
+    args = {"pie": ["-pie", "--dynamic-linker=/lib64/ld-linux-x86-64.so.2"], "shared": ["-shared", "-soname", "libmain.so"]}[kind]
+    args += ["-z", "now", "--hash-style=gnu", "--build-id=none", main_o, so]
+    lout, wout = os.path.join(d, "m.l"), os.path.join(d, "m.w")
+    rl = tools.link("ld", [*args, "-o", lout], cwd=d, timeout=120)
+    rw = tools.link("wild", [*args, "-o", wout], cwd=d, timeout=120, extra_env={"WILD_WRITE_LAYOUT": "1", "WILD_WRITE_TRACE": "1"})
+    if not rl.ok or not rw.ok:
+        return ctx.inconclusive("program with external data pointers does not link")
+    base = ldiff(["--wild-defaults", "--ref", lout, wout])
+    if base.timed_out:
+        return ctx.inconclusive("watchdog: linker-diff")
+    if base.rc != 0:
+        ctx.note("unmodified-pair-not-clean:ext:" + kind)
+        return ctx.inconclusive("unmodified ld-vs-wild comparison is not clean")
+    ctx.note("clean-pairs:ext:" + kind)
+    files = {"main.s": src, "ext.s": EXT_LIB_S,
+             "how.txt": "as ext.s -o ext.o; as main.s -o main.o; ld -shared -soname libext.so ext.o -o libext.so\n"
+                        f"WILD_WRITE_LAYOUT=1 WILD_WRITE_TRACE=1 $WILD {' '.join(args[:-2])} main.o libext.so -o m.w; same with ld.bfd -o m.l\n"}
+    run_addend_corruptions(ctx, r, wout, lout, kind, case_id, files, d)
+
+
 def catch_case(ctx, i, pinned=None):
     case_id = f"pinned-{pinned['id']}" if pinned else f"fs-{i}"
     tag = f"{ctx.seed}-{case_id}"
@@ -484,6 +537,7 @@ def catch_case(ctx, i, pinned=None):
 
 def run_corruptions(ctx, r, wout, lout, objs, kind, case_id, files, how, funcs, datas, d, tag="", sample=False, per_kind=None):
     """One corruption at a time in copies of `wout`; each must make linker-diff report something."""
+    run_addend_corruptions(ctx, r, wout, lout, kind, case_id, files, d, tag)
     e, sites, symaddr, symsize, relative = find_sites(objs, wout)
     if not sites:
         return ctx.inconclusive("no corruptible site found")
@@ -539,6 +593,59 @@ def run_corruptions(ctx, r, wout, lout, objs, kind, case_id, files, how, funcs, 
                 ctx.note_set("report-keys:" + s["kind"], k)
             ctx.held(fingerprint=f"catch:{case_id}:{s['kind']}:{s['form']}:{s['site']:#x}->{t}", nontrivial=True,
                      sample=dict(corruption=desc, reported=keys[:3]) if n == 0 and sample else None)
+
+
+def run_addend_corruptions(ctx, r, wout, lout, kind, case_id, files, d, tag=""):
+    """Data pointers that the loader resolves through a *symbolic* dynamic relocation (R_X86_64_64 sym+A in a
+    writable non-GOT section): changing A in a copy redirects the pointer, so linker-diff must report it."""
+    e = Elf(wout)
+    dyn = e.dynsym()
+    got = [s for s in e.sections if s.name.startswith(".got")]
+    cands = []
+    for rs in e.rela_sections():
+        if not (rs.flags & E.SHF_ALLOC):
+            continue
+        for i, rl in enumerate(e.relas(rs)):
+            if rl.type != R["R64"] or not rl.sym or rl.sym >= len(dyn):
+                continue
+            if any(g.addr <= rl.offset < g.addr + g.size for g in got):
+                continue
+            sec = next((x for x in e.sections if x.alloc and x.addr <= rl.offset < x.addr + x.size), None)
+            if sec is None or not (sec.flags & E.SHF_WRITE) or sec.type == E.SHT_NOBITS:
+                continue
+            cands.append((rs.offset + 24 * i + 16, rl, sec.name, dyn[rl.sym].name))
+    if not cands:
+        return
+    r.shuffle(cands)
+    for n, (aoff, rl, secname, symname) in enumerate(cands[:2]):
+        dst = os.path.join(d, f"corrupt-addend{n}.w")
+        copy_with_side_files(wout, dst)
+        data = bytearray(open(dst, "rb").read())
+        new = rl.addend + r.choice([8, 16, 32, 40])
+        struct.pack_into("<q", data, aoff, new)
+        open(dst, "wb").write(bytes(data))
+        res = ldiff(["--wild-defaults", "--ref", lout, dst])
+        if res.timed_out:
+            ctx.inconclusive("watchdog: linker-diff")
+            continue
+        k = "dynamic-symbolic-data-pointer"
+        ctx.note(f"corruptions:{k}:{kind}")
+        ctx.note_set("corruption-forms", f"{k}/{secname}/{kind}" + tag)
+        desc = (f"data pointer at {rl.offset:#x} ({secname}) of a {kind} output, resolved at load time by R_X86_64_64 {symname}"
+                f"{rl.addend:+#x}, redirected to {symname}{new:+#x}")
+        if res.rc == 0:
+            f2 = dict(files)
+            f2.update({"under-test.w": wout, "under-test.w.layout": wout + ".layout", "reference.l": lout, "corrupt.w": dst,
+                       "corrupt.w.layout": dst + ".layout",
+                       "how.txt": f"# corruption: {desc}\n# r_addend at file offset {aoff:#x} changed from {rl.addend} to {new}\n"
+                                  f"linker-diff --wild-defaults --ref <ld-output> corrupt.w   # exits 0\n"})
+            LIM.violation(f"missed-corruption:kind={k}:{kind}", f"linker-diff reports nothing although {desc}",
+                          case=f"{case_id}.a{n}", files=f2, info=dict(site=hex(rl.offset), sym=symname, addend=rl.addend, new=new))
+        elif res.rc != 1:
+            LIM.violation(f"linker-diff-failed:catch:{kind}", f"linker-diff exit status {res.rc} on a corrupted binary: "
+                          f"{res.errtext().strip()[:300]}", case=f"{case_id}.a{n}", files=files)
+        else:
+            ctx.held(fingerprint=f"catch:{case_id}:{k}:{rl.offset:#x}", nontrivial=True)
 
 
 PATCH_PY = r'''#!/usr/bin/env python3
@@ -646,12 +753,12 @@ def main(ctx):
     nq = ctx.pick(6, 30)
     nc = ctx.pick(36, 450)
     jobs = ([("p", p) for p in pinned_cases()] + [("pq", n) for n in list(PINNED_QUIET) + list(PINNED_QUIET_ASM)] + [("q", j) for j in range(nq)]
-            + [("c", i) for i in range(nc)])
+            + [("c", i) for i in range(nc)] + [("x", i) for i in range(ctx.pick(8, 60))])
     if ctx.replay is not None:
         c = str(ctx.replay.get("case")).split(".")[0]
         jobs = [j for j in jobs if (j[0] == "p" and c == f"pinned-{j[1]['id']}") or (j[0] == "q" and c == f"prog-{j[1]}")
                 or (j[0] == "pq" and c == f"pinned-quiet-{j[1]}")
-                or (j[0] == "c" and c == f"fs-{j[1]}")]
+                or (j[0] == "c" and c == f"fs-{j[1]}") or (j[0] == "x" and c == f"ext-{j[1]}")]
 
     def go(j):
         if j[0] == "p":
@@ -660,6 +767,8 @@ def main(ctx):
             pinned_quiet(ctx, j[1])
         elif j[0] == "q":
             quiet_program(ctx, j[1])
+        elif j[0] == "x":
+            addend_case(ctx, j[1])
         else:
             catch_case(ctx, j[1])
     pmap(go, jobs)
